@@ -12,7 +12,7 @@ from ..astutil import (ERROR_CLASSES, Locals, anon, call_name, cfg_of, construct
 from ..jinja_interp import expr_text
 from ..cfg import CFG, walk_own
 from ..core import PKG, Report
-from .registries import _bind_call, _inline_locals, check_module_files, check_registries
+from .registries import _bind_call, _inline_locals, check_module_files, check_registries, receiver_classes
 
 LEVEL = ("error discipline and accounting over all paths: no value whose static type includes a ParseError/PropertyError is "
          "discarded; every path through one iteration of a loop over items of the document (operations, component schemas, response "
@@ -20,7 +20,9 @@ LEVEL = ("error discipline and accounting over all paths: no value whose static 
          "item, and a path on which a value is known to be an error records it; diagnostics carry method+path / reference; keyed "
          "registries detect collisions (test and store on the same registry state); removed component schemas are named; every parsed "
          "response gets a status branch in the template; every operation is attached to a provably non-empty list of collections; the "
-         "error lists are concatenated up to the CLI; the method list equals the Operation fields of PathItem.")
+         "error lists are concatenated up to the CLI and the collections that carry the per-operation diagnostics are handed on entire "
+         "(accumulator -> result of from_data -> GeneratorData, no filtered copy, no removal); the method list equals the Operation "
+         "fields of PathItem.")
 
 # wrappers that hand the elements of their argument(s) on unchanged
 _ELEMENTWISE = {"enumerate", "sorted", "list", "tuple", "reversed", "chain", "itertools.chain", "iter"}
@@ -43,7 +45,10 @@ def run(rep: Report, ctx: Any) -> str:
                       "from it is recorded)")
     rep.rule("R07.8", "every response kept by the parser gets its status branch in the generated module: inside the loop over "
                       "endpoint.responses the status value is emitted under every assignment of the template conditions")
-    rep.rule("R07.5", "aggregation reaches the CLI: collection errors + schema/parameter errors + project errors")
+    rep.rule("R07.5", "aggregation reaches the CLI: collection errors + schema/parameter errors + project errors; the collections (which "
+                      "carry the diagnostics of their operations) reach the project entire: what EndpointCollection.from_data returns is "
+                      "its accumulator, what GeneratorData is given is what from_data returned - never a filtered copy, never with "
+                      "entries removed")
     rep.rule("R07.6", "every operation is attached to a provably non-empty list of collections; the method list is exhaustive")
 
     # ---- R07.1 -------------------------------------------------------------------------------------------------------
@@ -86,7 +91,7 @@ def run(rep: Report, ctx: Any) -> str:
     for f, loops in sorted(document_loops(ix).items(), key=lambda kv: kv[0].qual):
         sf = short(f)
         an = _Iteration(f, loops)
-        an.helpers = {g.name: g for g in region(ix, f, depth=1) if g is not f}
+        an.helpers = _iteration_helpers(ix, f)
         for lp, kind_of_item in loops.items():
             n_loops += 1
             kinds_seen.add(kind_of_item)
@@ -229,6 +234,26 @@ def run(rep: Report, ctx: Any) -> str:
     parts = _elements(ev, gd.node, {}) if ev is not None else set()
     rep.check(None not in accs and returned == accs and {f"{a}.errors" for a in accs} <= parts, "R07.5", "GeneratorData.from_dict::errors",
               "schema or parameter errors are not handed to the project", where(gd, gd.node), lhs=sorted(parts), rhs=sorted(f"{a}.errors" for a in accs if a))
+    # the collections themselves: every entry made while parsing reaches GeneratorData (a collection without endpoints still carries
+    # the diagnostics of the operations that failed)
+    handed = next((k.value for c in gcalls for k in c.keywords if k.arg == "endpoint_collections_by_tag"), None)
+    src = tg.elts[0] if isinstance(tg, ast.Tuple) and tg.elts else tg
+    why = _all_entries(gd.node, handed, lambda st, v: st is ecalls[0]) if handed is not None and isinstance(src, ast.Name) else "not handed over"
+    rep.check(why is None, "R07.5", "GeneratorData.from_dict::collections", "the collections handed to the project are not all the collections "
+              "EndpointCollection.from_data returned: the diagnostics stored on a dropped collection are lost with it",
+              where(gd, gd.node), lhs=why, rhs="endpoint_collections_by_tag=<first result of EndpointCollection.from_data>, entire")
+    acc_ok: list[str] = []
+    n_ret = 0
+    for r in _own_walk(fd.node):
+        if isinstance(r, ast.Return):
+            n_ret += 1
+            first_ = r.value.elts[0] if isinstance(r.value, ast.Tuple) and r.value.elts else r.value
+            w = _all_entries(fd.node, first_, lambda st, v: v is not None and norm(v) in ("{}", "dict()")) if first_ is not None else "returns nothing"
+            if w is not None:
+                acc_ok.append(w)
+    rep.check(n_ret >= 1 and not acc_ok, "R07.5", "EndpointCollection.from_data::returns-all-collections",
+              "what from_data returns as its collections is not the accumulator it filled, entire", where(fd, fd.node), lhs=acc_ok or n_ret,
+              rhs="the local that starts as an empty dict, or a copy with every entry of it")
     b = ix.func("Project.build")
     rets = [n for n in ast.walk(b.node) if isinstance(n, ast.Return)]
     rep.check(any(norm(_inline_locals(r.value, b.node)) == "self._get_errors()" for r in rets if r.value is not None), "R07.5", "Project.build::returns-errors",
@@ -441,6 +466,59 @@ def _returned_elements(fn: ast.AST) -> set[str]:
         return set()
     sets = [_elements(r.value, fn, {}) for r in rets]
     return set.intersection(*sets)
+
+
+# ---- a mapping handed on entire --------------------------------------------------------------------------------------------------------
+_WHOLE = {"dict", "copy", "deepcopy", "copy.copy", "copy.deepcopy", "OrderedDict", "collections.OrderedDict", "sorted", "list", "reversed"}
+
+
+def _all_entries(fn: ast.AST, e: ast.AST, is_source: Any, busy: frozenset = frozenset(), depth: int = 4) -> "str | None":
+    """None when the mapping denoted by e holds every entry of the source (the binding for which is_source(statement, value) holds):
+    the source itself under any local name, a whole copy (dict(x), x.copy(), {**x}, sorted items, a comprehension over all items that
+    keeps key and value), and nothing removed from it (del / pop / popitem / clear) anywhere in fn.  Otherwise the reason."""
+    if depth <= 0:
+        return "too deep"
+    if isinstance(e, ast.Name):
+        if e.id in busy:
+            return None
+        ds = Locals(fn).defs.get(e.id, [])
+        if not ds:
+            return f"`{e.id}` is not bound here"
+        for st in _own_walk(fn):
+            if isinstance(st, ast.Delete) and any(isinstance(t, ast.Subscript) and isinstance(t.value, ast.Name) and t.value.id == e.id for t in st.targets):
+                return f"entries are deleted from it (line {st.lineno})"
+            if isinstance(st, ast.Call) and isinstance(st.func, ast.Attribute) and st.func.attr in ("pop", "popitem", "clear") and \
+                    isinstance(st.func.value, ast.Name) and st.func.value.id == e.id:
+                return f"entries are removed from it (line {st.lineno})"
+        for kind, st, v in ds:
+            if is_source(st, v):
+                continue
+            if kind != "assign" or v is None:
+                return f"rebound at line {getattr(st, 'lineno', 0)}"
+            w = _all_entries(fn, v, is_source, busy | {e.id}, depth - 1)
+            if w is not None:
+                return w
+        return None
+    if isinstance(e, ast.Call):
+        if isinstance(e.func, ast.Attribute) and e.func.attr in ("copy", "items") and not e.args:
+            return _all_entries(fn, e.func.value, is_source, busy, depth)
+        if call_name(e) in _WHOLE and len(e.args) == 1:
+            return _all_entries(fn, e.args[0], is_source, busy, depth)
+        return f"`{norm(e)[:50]}`"
+    if isinstance(e, ast.Dict):
+        spreads = [v for k, v in zip(e.keys, e.values) if k is None]
+        return _all_entries(fn, spreads[0], is_source, busy, depth) if spreads else "a new dict"
+    if isinstance(e, ast.DictComp):
+        g = e.generators
+        if len(g) != 1 or g[0].ifs:
+            return f"filtered at line {e.lineno}: `{norm(e)[:70]}`"
+        tg = g[0].target
+        if isinstance(tg, ast.Tuple) and len(tg.elts) == 2 and norm(e.key) == norm(tg.elts[0]) and norm(e.value) == norm(tg.elts[1]):
+            return _all_entries(fn, g[0].iter, is_source, busy, depth)
+        return f"rebuilt at line {e.lineno}: `{norm(e)[:70]}`"
+    if isinstance(e, ast.IfExp):
+        return _all_entries(fn, e.body, is_source, busy, depth) or _all_entries(fn, e.orelse, is_source, busy, depth)
+    return f"`{norm(e)[:50]}`"
 
 
 # ---- endpoint diagnostics carry METHOD and path ------------------------------------------------------------------------------------
@@ -847,6 +925,27 @@ def _iter_attrs(e: ast.AST, fn: ast.AST, depth: int = 3) -> set[str]:
     return out
 
 
+def _iteration_helpers(ix: Any, f: Any) -> dict[str, Any]:
+    """the private helpers whose effects happen where f calls them: the functions of astutil.region (called by plain name / self. /
+    cls. / ClassName.), and the private methods f calls on some other object - a local copy of the object under construction, say -
+    resolved by the declared class of the receiver when annotations tell it, else by name when only one private method of the module
+    is called so"""
+    out = {g.name: g for g in region(ix, f, depth=1) if g is not f}
+    for c in _own_walk(f.node):
+        if not (isinstance(c, ast.Call) and isinstance(c.func, ast.Attribute)):
+            continue
+        last = c.func.attr
+        if not last.startswith("_") or last.startswith("__") or last in out:
+            continue
+        cands = [g for g in ix.all_functions if g.name == last and g.cls is not None and g.parent is None and g.module is f.module and g is not f]
+        known = receiver_classes(ix, f, c.func.value)
+        if known:
+            cands = [g for g in cands if any(k.name in known and g.cls in ix.mro(k) for k in ix.classes.values())]
+        if len(cands) == 1:
+            out[last] = cands[0]
+    return out
+
+
 # ---- what happens to the item on each path through one iteration -------------------------------------------------------------------
 class _S:
     """facts that hold on the paths reaching a program point inside one iteration"""
@@ -1047,6 +1146,12 @@ class _Iteration:
     def _is_error_value(self, e: ast.AST, s: _S) -> bool:
         if constructs_error(e):
             return True
+        if isinstance(e, ast.Call):
+            # the result of a private helper that returns nothing but errors it builds, whether or not its signature says so
+            g = self.helpers.get(call_name(e).rsplit(".", 1)[-1])
+            rets = [r for r in _own_walk(g.node) if isinstance(r, ast.Return)] if g is not None else []
+            if rets and all(r.value is not None and constructs_error(r.value) for r in rets):
+                return True
         if isinstance(e, ast.Name):
             # known to hold an error on this path, or somewhere in the function and not known otherwise here
             return e.id in s.err or (e.id in self.errs and e.id not in s.ok)
@@ -1079,7 +1184,8 @@ class _Iteration:
                 elif names_in(a0) & gparams:
                     keep = True
         passes_item = any(names_in(a_) & self.dep for a_ in args)
-        passes_error = any(self._is_error_value(a_, s) for a_ in args) or not s.pend
+        # the diagnostic is the known error itself or is built from it (the helper is handed the error, or something read from it)
+        passes_error = any(self._is_error_value(a_, s) or names_in(a_) & s.err for a_ in args) or not s.pend
         return rec and passes_item and passes_error, keep and passes_item
 
     def _simple(self, st: ast.stmt, s: _S) -> _S:
